@@ -29,35 +29,37 @@ theorem DeepLam.flat_refresh (v : Nat) (x : DeepLam) : (x.refresh.flat v) = (x.f
     exact TBlock.flat_refresh v 4 t
 
 /-- `LayerAndMaskInformation.read` with typed document-level blocks, on the main stream -/
-theorem DeepLam.dec_at {v pad follow : Nat} {x : DeepLam} (hwf : (x.flat v).WF v pad follow)
+theorem DeepLam.dec_at {v pad : Nat} {x : DeepLam} (hwf : (x.flat v).WF v pad)
     (htb : optAll (fun (t : TBlock) => t.WF v 4) x.taggedBlocks) {d : B} {p : Nat}
-    (hat : At d p ((x.flat v).encT v pad)) (hfol : p + ((x.flat v).encT v pad).length + follow ≤ d.length)
-    (hf1 : 1 ≤ follow) :
+    (hat : At d p ((x.flat v).encT v pad)) :
     DeepLam.dec v d p = .ok (x.refresh, p + ((x.flat v).encT v pad).length) := by
   have hw := secW_pos v
   obtain ⟨⟨_, _, _, hfb⟩, hrest⟩ := hwf
-  rw [LayerAndMask.length_encT] at hfol ⊢
+  rw [LayerAndMask.length_encT]
   unfold LayerAndMask.encT lenBlockT at hat
   simp only [zeros, List.replicate_zero, List.nil_append, List.append_assoc] at hat
   obtain ⟨e1, hat⟩ := readU_step hat hfb
   have hat := hat.left
+  have hno : ¬ overflows (p + secW v + ((x.flat v).bodyT v pad).length) d :=
+    not_overflows_of_le (by have := hat.bound; omega)
   obtain ⟨li, g, ts⟩ := x
-  simp only [DeepLam.flat] at hrest hat hfol e1 ⊢
+  simp only [DeepLam.flat] at hrest hat e1 hno ⊢
   cases li with
   | none =>
     obtain ⟨rfl, hts⟩ := hrest
     cases ts with
     | some ts => simp at hts
     | none =>
-      simp only [DeepLam.dec, bind, Except.bind, e1]
+      simp only [Option.map_none] at hno
+      simp only [DeepLam.dec, bind, Except.bind, e1, Option.map_none, if_neg hno]
       simp [LayerAndMask.bodyT, optT', DeepLam.refresh]
   | some li =>
     simp only at hrest
-    obtain ⟨hli, hg, hts, hgt, hgate⟩ := hrest
+    obtain ⟨hli, hg, hts, hgt⟩ := hrest
     cases ts with
     | none => simp at hts
     | some ts =>
-      simp only [Option.map_some] at hts hgt hgate hat hfol e1 ⊢
+      simp only [Option.map_some] at hts hgt hat e1 hno ⊢
       simp only [optAll] at htb
       have htw := tblocksWF_of_flat hts htb
       have hbody : LayerAndMask.bodyT v pad ⟨some li, g, some (ts.map (TBlock.flat v 4))⟩ =
@@ -72,7 +74,6 @@ theorem DeepLam.dec_at {v pad follow : Nat} {x : DeepLam} (hwf : (x.flat v).WF v
           (tblocksT v 4 ts).length := by
         rw [hbody]; simp only [List.length_append]; omega
       obtain ⟨e2, hat⟩ := LayerInfo.dec_step hli hat
-      simp only [optT', ← tblocksT_flat] at hgate
       cases g with
       | none =>
         have hnil : ts = [] := by
@@ -80,46 +81,17 @@ theorem DeepLam.dec_at {v pad follow : Nat} {x : DeepLam} (hwf : (x.flat v).WF v
           simpa using this
         subst hnil
         simp only [optT', tblocksT, listT, List.length_nil, Nat.add_zero, List.nil_append] at hat hblen
-        have hpe : p + secW v + (li.encT v pad).length = p + secW v + body.length := by omega
-        have hg17 : (isReadable 17 d (p + secW v + (li.encT v pad).length) &&
-            decide (p + secW v + (li.encT v pad).length < p + secW v + body.length)) = false := by
-          rw [hpe]; simp
-        have hr1 : isReadable 1 d (p + secW v + (li.encT v pad).length) = true := by
-          simp only [isReadable, decide_eq_true_eq]; omega
-        have e3 : tblocksDec v 4 (some (p + secW v + body.length)) d (p + secW v + (li.encT v pad).length) =
-            .ok (([] : List TBlock).map TBlock.refresh, p + secW v + (li.encT v pad).length + (tblocksT v 4 []).length) := by
-          apply tblocksDec_at (Or.inr (Or.inr rfl)) htw (some _)
-          · simpa [tblocksT, listT] using hat
-          · intro e he; cases he; simp only [tblocksT, listT, List.length_nil]; omega
-          · simp only [taggedCond, tblocksT, listT, List.length_nil, Nat.add_zero, hpe]
-            simp
-        simp only [DeepLam.dec, DeepLam.bodyDec, bind, Except.bind, e1, if_neg hne, e2]
-        simp only [hg17, Bool.false_eq_true, if_false, hr1, if_true, optItem, e3]
+        have hgate : ¬ (p + secW v + (li.encT v pad).length + 4 ≤ p + secW v + body.length) := by omega
+        simp only [DeepLam.dec, DeepLam.bodyDec, bind, Except.bind, e1, if_neg hne, e2, if_neg hgate, if_neg hno]
         simp [DeepLam.refresh, Nat.add_assoc]
       | some g =>
         simp only [optProp] at hg
-        simp only [optT'] at hat hblen hgate
+        simp only [optT'] at hat hblen
         have hgl := g.length_encT hg.2.1
-        have hg17 : (isReadable 17 d (p + secW v + (li.encT v pad).length) &&
-            decide (p + secW v + (li.encT v pad).length < p + secW v + body.length)) = true := by
-          have h17 : isReadable 17 d (p + secW v + (li.encT v pad).length) = true := by
-            simp only [isReadable, decide_eq_true_eq]
-            cases ho : g.overlayColor with
-            | none =>
-              have := hgate ho
-              simp only [ho, Option.isSome_none] at hgl
-              simp only [Bool.false_eq_true, if_false] at hgl
-              omega
-            | some cs =>
-              simp only [ho, Option.isSome_some, if_true] at hgl
-              omega
-          have hlt : p + secW v + (li.encT v pad).length < p + secW v + body.length := by
-            have : 4 ≤ g.encT.length := by rw [hgl]; split <;> omega
-            omega
-          simp [h17, hlt]
+        have hgate : p + secW v + (li.encT v pad).length + 4 ≤ p + secW v + body.length := by
+          have : 4 ≤ g.encT.length := by rw [hgl]; split <;> omega
+          omega
         obtain ⟨e3, hat⟩ := GlobalLayerMaskInfo.dec_step hg hat
-        have hr1 : isReadable 1 d (p + secW v + (li.encT v pad).length + g.encT.length) = true := by
-          simp only [isReadable, decide_eq_true_eq]; omega
         have hpe : p + secW v + (li.encT v pad).length + g.encT.length + (tblocksT v 4 ts).length =
             p + secW v + body.length := by omega
         have e4 : tblocksDec v 4 (some (p + secW v + body.length)) d
@@ -128,8 +100,7 @@ theorem DeepLam.dec_at {v pad follow : Nat} {x : DeepLam} (hwf : (x.flat v).WF v
           apply tblocksDec_at (Or.inr (Or.inr rfl)) htw (some _) hat
           · intro e he; cases he; omega
           · simp only [taggedCond, hpe]; simp
-        simp only [DeepLam.dec, DeepLam.bodyDec, bind, Except.bind, e1, if_neg hne, e2]
-        simp only [hg17, if_true, optItem, e3, hr1, e4]
+        simp only [DeepLam.dec, DeepLam.bodyDec, bind, Except.bind, e1, if_neg hne, e2, if_pos hgate, e3, e4, if_neg hno]
         simp [DeepLam.refresh, Nat.add_assoc]
 
 /-! ## the whole file -/
@@ -157,7 +128,7 @@ theorem DeepPSD.read_encT {pad : Nat} {x : DeepPSD} (hwf : x.WF pad) :
   have e3 := resourcesDec_at hr hat.left
   have hat := hat.right
   have hil := x.imageData.length_encT
-  have e4 := DeepLam.dec_at hl htb hat.left (by omega) (by omega)
+  have e4 := DeepLam.dec_at hl htb hat.left
   have hat := hat.right
   have e5 := ImageData.dec_at_end hi hat (by omega)
   simp only [DeepPSD.read, bind, Except.bind, e1, e2, e3, e4, e5]
